@@ -194,14 +194,20 @@ func (c *Conn) AsyncRead() {
 
 	// If is not EPOLLONESHOT, the reading event may be re-dispatched for more than
 	// once, here we reduce the duplicate reading events.
-	cnt := atomic.AddInt32(&c.readEvents, 1)
-	if cnt > 2 {
-		atomic.AddInt32(&c.readEvents, -1)
-		return
-	}
-	// Only handle it when it's the first reading event.
-	if cnt > 1 {
-		return
+	// The counter saturates at 2: one for the running read task, one to make it loop again.
+	// (Adding first and undoing the add afterwards could be overtaken by the task's decrements.)
+	for {
+		cnt := atomic.LoadInt32(&c.readEvents)
+		if cnt >= 2 {
+			return
+		}
+		if atomic.CompareAndSwapInt32(&c.readEvents, cnt, cnt+1) {
+			// Only handle it when it's the first reading event.
+			if cnt >= 1 {
+				return
+			}
+			break
+		}
 	}
 
 	g.IOExecute(func(pBuf *[]byte) {
